@@ -1524,7 +1524,8 @@ void Circuit::ensureNoLiteralComparison()
 	// At this point, there should no longer be any pure signal loops.
 	std::function<bool(hlim::NodePort)> isLiteral;
 	isLiteral = [&isLiteral](hlim::NodePort np)->bool {
-		HCL_ASSERT(np.node != nullptr);
+		// An unconnected input is exported as a literal of undefined bits (MinimalPostprocessing does not run insertConstUndefinedNodes).
+		if (np.node == nullptr) return true;
 
 		if (!np.node->getName().empty()) return false;
 		if (dynamic_cast<Node_Constant*>(np.node)) return true;
